@@ -322,7 +322,10 @@ def rule_attach(chk):
                 if g2 <= g1 or not g2:
                     same.append(val)
             want = [k for k, v in STATUS.items() if v == kind]
-            if not same or any(STATUS.get(v) != kind for v in same):
+            if not same:
+                chk.skip("C13.attach", "%s:status-and-serializer-agree(.%s)" % (q, kind), chk.where(f), "the status of this arm is not stored in %s itself (helper): not evaluated" % q)
+                continue
+            if any(STATUS.get(v) != kind for v in same):
                 problems.append("serializer .%s is attached where the status is %s" % (kind, same))
         if not ser_nodes:
             problems.append("no serializer selected from self._serializers")
